@@ -251,6 +251,22 @@ def gen(rng, n, exhaustive_upto):
             for _k in range(rng.randint(1, 3)):
                 faults.setdefault(str(rng.randint(1, 6)), []).append(["line", rng.choice(names), str(rng.choice([F(1), F(2), F(3)]))])
             cases[-1]["run_between"] = {"n_inc": 12, "faults": faults}
+    for q in range(max(2, n // 40)):
+        # targeted: two feeders with a backup line, every line with switches at both ends; the first line of a feeder fails, the rest of
+        # the feeder is fed backwards through the backup line (its lines are turned), the line is repaired within the run (they are
+        # turned back); then the network is prepared again
+        spec = net.rand_feeder_spec(rng, max_lines=4, ctrl="manual", allow_tie=True, allow_mg=False, nfeed=2, sw_choices=(3,))
+        while not spec.get("tie"):
+            spec = net.rand_feeder_spec(rng, max_lines=4, ctrl="manual", allow_tie=True, allow_mg=False, nfeed=2, sw_choices=(3,))
+        for fd in spec["feeders"]:
+            while len(fd["parent"]) < 3:
+                fd["parent"].append(len(fd["parent"]) - 1)
+                for key, v in (("sw", 3), ("cust", 1), ("load", "1/50"), ("cost", 1)):
+                    fd[key].append(v)
+        spec["tie"] = {"a": [0, len(spec["feeders"][0]["parent"]) - 1], "b": [1, len(spec["feeders"][1]["parent"]) - 1]}
+        spec["ctrl"]["T"] = "1"
+        f = q % 2
+        cases.append({"spec": spec, "run_between": {"n_inc": 12, "faults": {"2": [["line", f"F{f}L0", "3"]]}}})
     return cases
 
 
